@@ -223,8 +223,14 @@ pub fn formula(rng: &mut Rng, cfg: &Cfg, depth: usize) -> fol::Formula {
     }
 }
 
+/// number of items of a list-like input: 1..=max, and 0 (the ONE empty input `(theory)`, `""`,
+/// `(program)`, ..) for 1 % of the cases only (it used to be 1/(max+1) = 18-29 %: audit 2, B16)
+pub fn count(rng: &mut Rng, max: usize) -> usize {
+    if rng.below(100) < 1 { 0 } else { 1 + rng.below(max) }
+}
+
 pub fn theory(rng: &mut Rng, cfg: &Cfg, depth: usize) -> fol::Theory {
-    let n = rng.below(4);
+    let n = count(rng, 3);
     fol::Theory { formulas: (0..n).map(|_| formula(rng, cfg, depth)).collect() }
 }
 
